@@ -107,6 +107,20 @@ def conversions(seqs, trace):
     back = fasta.get_alignment(fasta.FastaFile.read(io.StringIO(s_io.getvalue())))
     if back.trace.tolist() != np.array(trace).tolist() or [str(x) for x in back.sequences] != [str(x) for x in seqs]:
         return f"FASTA alignment round trip: trace {back.trace.tolist()}"
+    # parsing with additional gap characters: every listed character is a gap, in every row
+    gapped = ali.get_gapped_sequences()
+    for chars in (("_",), (".",), ("_", "."), (".", "_", "~")):
+        for variant in range(len(chars) + 1):
+            f2 = fasta.FastaFile()
+            for r, g in enumerate(gapped):
+                ch = chars[(variant + r) % len(chars)] if variant < len(chars) else None
+                f2[f"s{r}"] = g.replace("-", ch) if ch else "".join(chars[(r + q) % len(chars)] if c == "-" else c for q, c in enumerate(g))
+            try:
+                back = fasta.get_alignment(f2, additional_gap_chars=chars)
+            except Exception as e:
+                return f"FASTA alignment with gap characters {chars} (variant {variant}) not parsed: {type(e).__name__}: {e}"
+            if back.trace.tolist() != np.array(trace).tolist() or [str(x) for x in back.sequences] != [str(x) for x in seqs]:
+                return f"FASTA alignment with gap characters {chars}: trace {back.trace.tolist()}"
     # identity
     cols = [t for t in trace]
     if len(seqs) == 2 and len(cols):
